@@ -142,6 +142,11 @@ pub fn gen(seed: u64, thorough: bool) {
             out.line(&format!("c08 f32 {:08x}", b));
         }
     }
+    // the two f32 values whose shortest digits lie so close to the midpoint of two f32 that reading them as f64 and narrowing
+    // (the rule of C07) lands on the neighbour (found by the exhaustive walk of the thorough tier), and their neighbours
+    for b in [0x15ae43fcu32, 0x15ae43fd, 0x15ae43fe, 0x95ae43fd] {
+        out.line(&format!("c08 f32 {:08x}", b));
+    }
     for e in 0..255u32 {
         for m in [0u32, 1, (1 << 23) - 1] {
             out.line(&format!("c08 f32 {:08x}", (e << 23) | m));
@@ -190,7 +195,7 @@ pub fn gen(seed: u64, thorough: bool) {
 pub fn all_f32() {
     use std::sync::atomic::{AtomicU64, Ordering};
     let fails = AtomicU64::new(0);
-    let first = std::sync::Mutex::new(None::<u32>);
+    let first = std::sync::Mutex::new(Vec::<u32>::new());
     std::thread::scope(|s| {
         for t in 0..16u32 {
             let fails = &fails;
@@ -208,11 +213,13 @@ pub fn all_f32() {
                     if !ok {
                         fails.fetch_add(1, Ordering::Relaxed);
                         let mut g = first.lock().unwrap();
-                        if g.is_none() { *g = Some(b as u32); }
+                        if g.len() < 64 { g.push(b as u32); }
                     }
                 }
             });
         }
     });
-    println!("allf32 failures={} first={}", fails.load(Ordering::Relaxed), first.lock().unwrap().map(|b| format!("{:08x}", b)).unwrap_or("-".into()));
+    let mut v = first.lock().unwrap().clone();
+    v.sort();
+    println!("allf32 failures={} first={}", fails.load(Ordering::Relaxed), if v.is_empty() { "-".to_string() } else { v.iter().map(|b| format!("{:08x}", b)).collect::<Vec<_>>().join(",") });
 }
